@@ -822,15 +822,19 @@ def timeoutAct (cfg : Cfg) (l : Led) (h : Nat) (tx : Tx) (rc : Rcpt) : TOAct :=
       let id : TxId := { frm := f, to := t, index := i.index }
       let invalid := !rc.ok || rc.ret == "batch_ibtp"
       let failBegin := rc.txStatus == 1
-      if t.chain == cfg.bxh || i.group.isSome || invalid || failBegin then .skip
+      -- since the `fix:` commit "an accepted receipt of an unordered source service leaves the timeout list": for a receipt
+      -- `invalid` alone does not end the bookkeeping; the record decides
+      if t.chain == cfg.bxh || i.group.isSome || (invalid && !i.typ.isResponse) || failBegin then .skip
       else if i.typ.isRequest then
         if i.timeout ≤ 0 ∨ i.timeout.toNat ≥ maxU64 - h then .skip
         else .add (h + i.timeout.toNat) id
       else if i.typ.isResponse then
         match l.getS (.txRec id) with
-        | some (.trec r) => .remove r.height id
+        | some (.trec r) => if invalid && !r.status.isFinal then .skip else .remove r.height id
         | some _ => .abort
-        | none => match l.getS (.child id) with
+        | none =>
+          if invalid then .skip else
+          match l.getS (.child id) with
           | some _ => .skip
           | none => .abort
       else .skip
